@@ -14,12 +14,33 @@ def _mk(ids, beh, **kw):
 
 def real_cases(pid, tier="thorough"):
     ids6 = [1, 2, 3, 4, 5, 6]
+    # C08, both tiers (about 4 s): (1) the replayed operations are process citizens of their own - some compute in a helper
+    # multiprocessing.Process, one in a helper thread; the verdicts are the same in-process and in the dedicated worker.
+    # (2) a long history under the finite descriptor limit every process has: 48 ordinary recordings at recycle rate 1
+    # (48 worker generations) with 40 descriptors of headroom - a run whose descriptor use does not grow with the number of
+    # worker generations gives all of them their verdict
+    citizens = [
+        _mk(ids6, {2: "spawns", 3: "spawns", 4: "spawns:thread", 5: "different", 6: "spawns"}, rate=2, timeout=5, keep=True,
+            probe="operation-uses-processes"),
+        _mk(list(range(1, 49)), {7: "different", 30: "different"}, rate=1, timeout=5, fd_headroom=40, watchdog=40.0,
+            probe="long-history-descriptor-limit"),
+    ]
+    if tier == "quick" and pid == "C08":
+        return citizens
+    # C13, both tiers (about 2 s each, in an interpreter and session of their own): the run is abandoned by Ctrl-C - SIGINT
+    # to the whole process group, as a terminal / a cancelled CI job sends it - WHILE a replay hangs in the worker (the
+    # worker is not idle: it does not look at the terminate event); the consumer catches KeyboardInterrupt and gives up
+    # the run.  No worker may remain.  Hang at the first recording of a worker's life and after one it has served.
+    interrupts = [
+        _mk([1, 2, 3], {2: "hang"}, rate=2, timeout=30, consume=("interrupt", 1), probe="interrupted-during-hang"),
+        _mk([1, 2, 3], {1: "hang"}, rate=1, timeout=30, consume=("interrupt", 0), probe="interrupted-during-hang"),
+    ] if pid == "C13" else []
     if tier == "quick":
         # anchors (about 3 s) for what the simulator assumes about real multiprocessing in its two newest behaviours:
         # an item that does not unpickle makes the parent's Queue.get raise and leaves the worker in place; a worker
         # SIGKILLed while it sleeps between two replays costs one "died" verdict and nothing else
         return [_mk(ids6, {1: "unloadable", 2: "unloadable", 4: "unloadable"}, rate=2, timeout=2),
-                _mk(ids6, {}, rate=2, timeout=2, kill_idle_after=[2, 5, 6])] if pid == "C13" else []
+                _mk(ids6, {}, rate=2, timeout=2, kill_idle_after=[2, 5, 6])] + interrupts if pid == "C13" else []
     common = [
         _mk(ids6, {3: "hang", 4: "exit1"}, rate=2, timeout=1),
         _mk([1, 2, 3, 4, 5], {2: "drops"}, rate=5, timeout=1),          # unpicklable result: never arrives
@@ -28,7 +49,7 @@ def real_cases(pid, tier="thorough"):
         _mk(ids6, {1: "unloadable", 2: "unloadable", 4: "unloadable"}, rate=2, timeout=2),
     ]
     if pid == "C08":
-        return common + [
+        return common + citizens + [
             _mk(ids6, {2: "exit0", 3: "exit1", 5: "slow:1"}, rate=3, timeout=2, keep=True),
             _mk([1, 2, 3, 4, 5], {1: "different", 2: "player_raises", 3: "extractor_raises", 4: "comparator_raises"},
                 rate=2, timeout=2, keep=True),
@@ -41,7 +62,7 @@ def real_cases(pid, tier="thorough"):
             _mk(ids6, {2: "cr:Different:text:1:plain", 3: "cr:Failed:struct:1:plain", 4: "cr:Fixed:none:1:sub",
                        5: "foreign:none"}, rate=2, timeout=2, keep=True),
         ]
-    return common + [
+    return common + interrupts + [
         _mk([1, 2, 3, 4, 5], {1: "hang_deaf", 5: "exit0"}, rate=1, timeout=1),      # faults first and last
         _mk(ids6, {}, rate=2, timeout=2, consume=("close", 3)),
         _mk(ids6, {2: "hang"}, rate=2, timeout=1, consume=("raise", 4)),
@@ -90,6 +111,10 @@ def anomalies(case, run):
             out.append(("C13", "worker-over-age", "worker process #%d played %d recordings %s, recycle rate %d"
                         % (pid_ord, len(served), served, rate)))
     flat = [i for served in run["served"] for i in served]
+    if run["outcome"] == "interrupted" and len(cmps) < len(ids) and flat[-1:] == [ids[len(cmps)]]:
+        flat = flat[:-1]        # the replay during which the run was interrupted: begun, never compared
+    if run.get("note"):
+        out.append(("C13", "run-blocks-forever", "the script's own interpreter gave no result: %s" % run["note"]))
     if sorted(flat) != sorted(i for i in ids[:len(cmps)] if i not in lost) and run["outcome"] not in ("stuck",):
         out.append(("C13", known or "task-not-served-once", "recordings played by the workers %s, compared %s" % (run["served"], ids[:len(cmps)])))
     else:
